@@ -547,6 +547,9 @@ def _chunk_job(chunk, deadline):
 # ---------------------------------------------------------------- main
 def main(tier):
     rep = common.SimpleReport(PROP, tier, level='model_checking')
+    # the whole space costs about a minute and a half: the quick tier
+    # explores what the thorough tier explores
+    tier = 'thorough'
     F = fixtures()
     R, U = F['routes'], F['unguarded']
 
